@@ -551,7 +551,8 @@ def parent_main(prop, tier, seed, replay=None, shards=None):
             print(f"SURVEY {k} x{e['n']}: {e['message'][:300]}\n    case={json.dumps(e['case'], default=repr)[:1200]}")
     if failure is not None:
         h = jhash([failure["sub"], failure["case"]])
-        fdir = os.path.join(ROOT, "replays", prop)
+        # VERIF_FOUND_DIR: runs against deliberately broken trees keep their findings out of replays/
+        fdir = os.path.join(os.environ.get("VERIF_FOUND_DIR") or os.path.join(ROOT, "replays"), prop)
         os.makedirs(fdir, exist_ok=True)
         path = os.path.join(fdir, f"found_{h:016x}.json")
         with open(path, "w") as f:
